@@ -4,6 +4,7 @@
 import Codec
 import BiscuitModel.Model.Versions
 import BiscuitModel.Model.Params
+import BiscuitModel.Model.Keys
 open Lean Biscuit Biscuit.Codec
 
 def runExpr (j : Json) : P Json := do
@@ -576,6 +577,70 @@ def runParams (j : Json) : P Json := do
 
 end ParamsOp
 
+/-! ### keys (C17) -/
+section KeysOp
+open Biscuit.Keys
+
+def algOf (s : String) : Keys.Alg := if s == "ed25519" then .ed25519 else .secp256r1
+
+def verdictJ : Verdict → Json
+  | .reject => Json.mkObj [("r", "err")]
+  | .accept a b => Json.mkObj [("r", "key"), ("alg", String.ofList a.name), ("bytes", hex b)]
+  | .acceptUncompressed => Json.mkObj [("r", "key"), ("alg", "secp256r1"), ("bytes", Json.null)]
+
+def runKeys (j : Json) : P Json := do
+  let kind ← (← field j "kind").getStr?
+  match kind with
+  | "roundtrip" =>
+    let alg := algOf (← (← field j "alg").getStr?)
+    let sk ← unhex (← (← field j "sk").getStr?)
+    let pk ← unhex (← (← field j "pk").getStr?)
+    let pubS := printPub alg pk
+    let privS := printPub alg sk
+    let proto := Wire.encPubKey ⟨alg.tag, pk⟩
+    let same (v : Verdict) (b : Bytes) : Json := Json.bool (v == .accept alg b)
+    pure (Json.mkObj [
+      ("pub_hex", String.ofList (Printer.hexEncode pk)), ("pub_string", String.ofList pubS),
+      ("priv_hex", String.ofList (Printer.hexEncode sk)), ("priv_string", String.ofList privS),
+      ("pub_proto", hex proto),
+      ("pub_der", if alg == .ed25519 then Json.str (hex (derPubEd25519 pk)) else Json.null),
+      ("back", Json.mkObj [
+        ("pub_bytes", same (pubBytes alg pk) pk), ("pub_hex", same (pubHex alg (Printer.hexEncode pk)) pk),
+        ("pub_string", same (parsePubString pubS) pk), ("pub_proto", same (pubProto proto) pk),
+        ("priv_bytes", same (privBytes alg sk) sk), ("priv_hex", same (privHex alg (Printer.hexEncode sk)) sk),
+        ("priv_string", same (parsePrivString privS) sk),
+        ("pub_der", if alg == .ed25519 then same (parseDerPubEd25519 (derPubEd25519 pk)) pk else Json.null)])])
+  | "decode" =>
+    let what ← (← field j "what").getStr?
+    let alg := algOf (← (← field j "alg").getStr?)
+    let text : List Char := match fieldOpt j "text" with
+      | some (.str s) => s.toList
+      | _ => []
+    let bytes ← (match fieldOpt j "hex" with
+      | some (.str s) => unhex s
+      | _ => pure [] : P Bytes)
+    let v : Option Verdict := match what with
+      | "pub_string" => some (parsePubString text)
+      | "priv_string" => some (parsePrivString text)
+      | "pub_hex" => some (pubHex alg text)
+      | "priv_hex" => some (privHex alg text)
+      | "pub_bytes" => some (pubBytes alg bytes)
+      | "priv_bytes" => some (privBytes alg bytes)
+      | "pub_proto" => some (pubProto bytes)
+      | "pub_der" => if bytes.length == 44 then some (parseDerPubEd25519 bytes) else none
+      | "pub_der_alg" => if bytes.length == 44 && alg == .ed25519 then some (parseDerPubEd25519 bytes) else none
+      | _ => none
+    match v with
+    | some v => pure (verdictJ v)
+    | none => pure (Json.mkObj [("r", "unmodelled")])
+  | _ =>
+    -- a signature verifies exactly when key, message and signature are the genuine ones (scheme
+    -- correctness and unforgeability: the hypotheses of C01/C17, not theorems)
+    let genuine := (← (← field j "sig_mut").getStr?) == "none" && (fieldOpt j "vk").isNone && (fieldOpt j "vmsg").isNone
+    pure (Json.mkObj [("expect", Json.bool genuine)])
+
+end KeysOp
+
 def handle (line : String) : String :=
   match Json.parse line with
   | .error e => (Json.mkObj [("driver_error", s!"parse: {e}")]).compress
@@ -598,6 +663,7 @@ def handle (line : String) : String :=
       | "symbols" => runSymbols j
       | "print" => runPrint j
       | "params" => runParams j
+      | "keys" => runKeys j
       | _ => throw s!"unknown op {op}"
     match r with
     | .ok o => o.compress
